@@ -49,6 +49,16 @@ def chunk {β : Type} (dim : Nat) : Nat → List β → List (List β)
   | 0, _ => []
   | n + 1, l => l.take dim :: chunk dim n (l.drop dim)
 
+/-- Inputs of 4096 items or more: rayon may split the fold of `par_rcb_split` into several
+chunks and run its reduce, which the model (one sequential chunk) does not predict.  The
+driver declines; the harness's oracle judges these cases alone. -/
+def largeN (tok : String) : Bool :=
+  match tok.toNat? with
+  | some n => n ≥ 4096
+  | none => false
+
+def skipLarge : String := "skip large-n (oracle only)"
+
 def exitName : Exit → String
   | .allLeft => "allleft"
   | .plateau => "plateau"
